@@ -38,6 +38,7 @@ func checkC07(c *Ctx, r *Report) {
 	escRule(c, r, "C07.ESC")
 	rawRule(c, r, "C07.RAW")
 	finiteRule(c, r, "C07.NUM")
+	numFmtWriterRule(c, r, "C07.NUMFMT")
 	sepRule(c, r, "C07.SEP", false)
 }
 
@@ -1206,4 +1207,58 @@ func c18RawAccept(c *Ctx, r *Report) {
 	r.check("C18.RAWACCEPT", "readString accepts every byte writeString emits raw", rs.Pos(), len(bad) == 0,
 		fmt.Sprintf("bytes %s are written as they are by the writer and refused by the reader: a string containing one does not parse back from its own SDL or JSON form", bad))
 	r.floor("C18.RAWACCEPT", "byte-dependent error returns of the string reader", nRet, 1)
+}
+
+// numFmtWriterRule: in the value writer every number is written as the unmodified output of a strconv
+// formatter. Text appended to or cut from that output (a forced ".0") is correct for the plain decimal form
+// only; the formatter switches to exponent form on its own (1e+06 -> "1e+06.0" is neither JSON nor SDL).
+func numFmtWriterRule(c *Ctx, r *Report, rule string) {
+	r.rule(rule, "in the value writer, under every numeric case of the type switch the bytes written are exactly []byte(strconv.Format*(..)) of the value")
+	wr, why := writerRolesOf(c)
+	if wr == nil {
+		r.undecided(rule, "anchors of the value writer", token.NoPos, why)
+		return
+	}
+	fn := wr.fn
+	var vP *ssa.Parameter
+	for _, p := range fn.Params {
+		if isEmptyIface(p.Type()) {
+			vP = p
+		}
+	}
+	n := 0
+	for _, ci := range callsIn(fn) {
+		cc := ci.Common()
+		if !cc.IsInvoke() || cc.Method.Name() != "Write" || len(cc.Args) != 1 {
+			continue
+		}
+		numeric := ""
+		for _, t := range caseTypes(ci.Block(), vP) {
+			if bt, ok := t.Underlying().(*types.Basic); ok && bt.Info()&types.IsNumeric != 0 {
+				numeric = typeStr(t)
+			}
+		}
+		for _, f := range assertFacts(ci.Block()) {
+			if f.holds && stripIface(f.x) == ssa.Value(vP) {
+				if bt, ok := f.t.Underlying().(*types.Basic); ok && bt.Info()&types.IsNumeric != 0 {
+					numeric = typeStr(f.t)
+				}
+			}
+		}
+		if numeric == "" {
+			continue
+		}
+		n++
+		direct := false
+		if cv, ok := cc.Args[0].(*ssa.Convert); ok {
+			if call, ok := cv.X.(*ssa.Call); ok {
+				if f := calleeObj(call); f != nil && f.Pkg() != nil && f.Pkg().Path() == "strconv" && strings.HasPrefix(f.Name(), "Format") {
+					direct = true
+				}
+			}
+		}
+		r.check(rule, fmt.Sprintf("%s: %s values are written as the formatter's output", fnName(fn), numeric), ci.Pos(), direct,
+			"the number's text is produced or altered outside strconv.Format*: digits or a suffix added to the formatter's output break its exponent form, and the result is rejected by a JSON parser and by the library's own value reader")
+	}
+	r.floor(rule, "numeric writes in the value writer", n, 4)
 }
